@@ -20,6 +20,10 @@ type stepperMaker func(res *ev.Result, cfg *engine.Config, name string, seed uin
 func mkStepper[K any](k func() *kinds.Kind[K], nOps int, fan bool) stepperMaker {
 	return func(res *ev.Result, cfg *engine.Config, name string, seed uint64) engine.Stepper {
 		kk := k()
+		if fan && nOps%2 == 0 && kk.Fan != nil {
+			// threshold walk: every grow and shrink edge, several times
+			return engine.NewSweepStepper(kk, cfg, res, name, seed, cfg.Has(engine.MShape))
+		}
 		if fan && kk.Fan != nil {
 			// contents drawn from one 256-way fan-out family: the history drives a
 			// single node up and down through every size class
@@ -32,7 +36,7 @@ func mkStepper[K any](k func() *kinds.Kind[K], nOps int, fan bool) stepperMaker 
 				return f
 			}
 		}
-		return engine.NewStepper(kk, cfg, res, name, seed, nOps, 200, true)
+		return engine.NewStepper(kk, cfg, res, name, seed, nOps, 200, cfg.Has(engine.MShape))
 	}
 }
 
